@@ -13,7 +13,8 @@ PROPERTY_ID = "C06"
 LEVEL = "exploration"
 EXHAUSTIVE = True
 RULE = ("Exhaustive shape family: context {top level, function, closure} x loop {while, for} x 0..2 wrappers from "
-        "{if, if/else-else, match-Some, match-None} around a `let v` x exit {normal, break, continue, return} x probe "
+        "{if, if/else-else, match-Some, match-None} x the block on that path holding `let v` (loop body or any "
+        "wrapper) x innermost exit {normal, break, continue, return} x probe "
         "{read of the dead `v` after the loop -> must raise `No such variable`, read of a same-named outer variable "
         "-> must print the outer value, read later in the same iteration after the wrapper}; plus random G-core "
         "programs (early-exit biased, shadowing on) followed by a read of a name that is only ever bound in dead "
@@ -36,24 +37,33 @@ E, S, Block, Binder = G.E, G.S, G.Block, G.Binder
 INT, BOOL, STR = G.INT, G.BOOL, G.STR
 
 
-def build(ctx_kind, loop, wraps, exit_, probe):
+def build(ctx_kind, loop, wraps, exit_, probe, let_level=None):
     """Build the shape program as a G-core syntax tree; the expected behaviour comes from the reference
-    interpreter, in which a read of a dead name (S "probe" without binder) raises `unbound`."""
+    interpreter, in which a read of a dead name (S "probe" without binder) raises `unbound`.
+
+    let_level: in which block on the path the `let v` sits: 0 = the loop body itself, k = inside the k-th
+    wrapper; default = innermost. The exit statement is always innermost."""
+    if let_level is None:
+        let_level = len(wraps)
     flag = Binder("flag", BOOL)
     nothing = Binder("nothing", G.TOption(INT))
     inner_v = Binder("v", INT)
     outer_v = Binder("v", INT) if probe in ("outer", "same-iteration-outer") else None
     caller_v = Binder("v", INT) if probe in ("outer", "same-iteration-outer") else None
 
-    innermost = [S("let", (inner_v, None, E("int", (7,), INT))), S("print", (E("var", (inner_v,), INT),))]
+    def decl():
+        return [S("let", (inner_v, None, E("int", (7,), INT))), S("print", (E("var", (inner_v,), INT),))]
+
+    innermost = []
     if exit_ == "break":
         innermost.append(S("break", ()))
     elif exit_ == "continue":
         innermost.append(S("continue", ()))
     elif exit_ == "return":
         innermost.append(S("return", (E("int", (5,), INT),)))
-    stmts = innermost
-    for w in reversed(wraps):
+    stmts = (decl() if let_level == len(wraps) else []) + innermost
+    for j in range(len(wraps) - 1, -1, -1):
+        w = wraps[j]
         if w == "if":
             stmts = [S("if", (E("var", (flag,), BOOL), Block(stmts), None))]
         elif w == "else":
@@ -67,6 +77,8 @@ def build(ctx_kind, loop, wraps, exit_, probe):
             pb = Binder("p", INT, kind="pattern")
             stmts = [S("match", (E("var", (nothing,), G.TOption(INT)),
                                  ((("some", pb), Block([])), (("none",), Block(stmts)))))]
+        if let_level == j:
+            stmts = decl() + stmts
     body = list(stmts)
     if probe.startswith("same-iteration"):
         body.append(S("probe", ("v", outer_v)))
@@ -111,18 +123,20 @@ def enum_shapes(tier):
                 for wraps in itertools.product(WRAPS, repeat=d):
                     for exit_ in ("normal", "break", "continue", "return"):
                         for probe in ("dead", "outer", "same-iteration", "same-iteration-outer"):
-                            if probe.startswith("same-iteration") and (not wraps or exit_ != "normal"):
-                                continue
-                            prog = build(ctx_kind, loop, list(wraps), exit_, probe)
-                            if prog is None:
-                                continue
-                            out, outcome = RI.Interp().run(prog)
-                            src = G.Printer().program(prog)
-                            if src in seen:
-                                continue
-                            seen.add(src)
-                            yield {"src": src, "out": out, "outcome": list(outcome),
-                                   "shape": [ctx_kind, loop, list(wraps), exit_, probe]}
+                            for let_level in range(d, -1, -1):
+                                if probe.startswith("same-iteration") and (not wraps or exit_ != "normal"
+                                                                            or let_level == 0):
+                                    continue
+                                prog = build(ctx_kind, loop, list(wraps), exit_, probe, let_level)
+                                if prog is None:
+                                    continue
+                                out, outcome = RI.Interp().run(prog)
+                                src = G.Printer().program(prog)
+                                if src in seen:
+                                    continue
+                                seen.add(src)
+                                yield {"src": src, "out": out, "outcome": list(outcome),
+                                       "shape": [ctx_kind, loop, list(wraps), exit_, probe, let_level]}
 
 
 UNBOUND_RE = re.compile(r"^Exception: No such variable `v`\.", re.M)
@@ -132,8 +146,10 @@ def check_shape(case, ctx) -> Res:
     src = case["src"]
     path = ctx.scratch.file(src)
     r = run_garden(["run", path], cwd=ctx.scratch.root, timeout=30)
-    ctx_kind, loop, wraps, exit_, probe = case["shape"]
-    cls = (f"exit:{exit_}", f"depth:{len(wraps)}", f"probe:{probe}", f"ctx:{ctx_kind}")
+    ctx_kind, loop, wraps, exit_, probe = case["shape"][:5]
+    let_level = case["shape"][5] if len(case["shape"]) > 5 else len(wraps)
+    cls = (f"exit:{exit_}", f"depth:{len(wraps)}", f"probe:{probe}", f"ctx:{ctx_kind}",
+           f"let-level:{let_level}of{len(wraps)}")
     if r.timed_out:
         return Res(ok=True, inconclusive=True, detail="timeout\n" + src)
     if r.crashed:
